@@ -401,6 +401,13 @@ namespace vh
     micm::ProcessSet ps(procs, nameMap(perm));
     auto nz = ps.NonZeroJacobianElements();
     SM J = micm::BuildJacobian<SM>(nz, ncell, ns);
+    {
+      // the same ProcessSet was pointed at a Jacobian of ANOTHER layout before (the other storage order, one block
+      // more): re-targeting must discard everything the first call left behind
+      using SMother = SparseOf<LS, !CSC>;
+      SMother Jother = micm::BuildJacobian<SMother>(nz, ncell + 1, ns);
+      ps.SetJacobianFlatIds(Jother);
+    }
     ps.SetJacobianFlatIds(J);
     DM K = denseFrom<DM>(ncell, nrx, k), Y = denseFrom<DM>(ncell, ns, y);
     J.Fill(0.0);
